@@ -251,6 +251,10 @@ func (sc *StructCase) walk(present bool, fn func(fc *FieldCase, mentioned bool))
 					el.walk(true, fn)
 				}
 			}
+		case KAStruct:
+			for _, el := range fc.Elems {
+				el.walk(m, fn)
+			}
 		}
 	}
 }
@@ -344,6 +348,12 @@ func Run(r *sim.R, prop string) {
 	cfg := e.mkConfig(e.In)
 	if cfg == nil {
 		return
+	}
+	if e.G.custom {
+		// the same type was seen under the standard tag names before (nothing read then may stick)
+		t0 := e.newTarget()
+		cb = &Callbacks{FailAt: -1}
+		r.MustComplete("Unpack", func() { cfg.Unpack(t0.Interface(), ucfg.PathSep(".")) })
 	}
 	target := e.newTarget()
 	snap0 := takeSnapshot(target)
@@ -445,7 +455,7 @@ func (e *E) pathsOfHit(h Hit) ([]string, bool) {
 		case "Validate":
 			switch h.ID {
 			case "VInt":
-				match = fc.F.Kind == KVInt || fc.F.Kind == KSVInt || fc.F.Kind == KMVInt || fc.F.Kind == KInner || fc.F.Kind == KPInner
+				match = fc.F.Kind == KVInt || fc.F.Kind == KSVInt || fc.F.Kind == KMVInt || fc.F.Kind == KInner || fc.F.Kind == KPInner || fc.F.Kind == KSSVInt || fc.F.Kind == KMSVInt
 			case "PI":
 				match = fc.F.Kind == KPI
 			case "VStr":
@@ -473,7 +483,14 @@ func (e *E) pathsOfHit(h Hit) ([]string, bool) {
 			}
 		case KMInt, KMIface, KMVInt:
 			paths = append(paths, fc.Path+".p", fc.Path+".q", fc.Path+".z")
-		case KMSlice:
+		case KSSVInt:
+			for i := 0; i < 3; i++ {
+				paths = append(paths, fc.Path+"."+itoa(i))
+				for j := 0; j < 4; j++ {
+					paths = append(paths, fc.Path+"."+itoa(i)+"."+itoa(j))
+				}
+			}
+		case KMSlice, KMSVInt:
 			for _, k := range []string{"p", "q", "z"} {
 				paths = append(paths, fc.Path+"."+k)
 				for i := 0; i < 4; i++ {
@@ -535,7 +552,7 @@ func (e *E) checkTraversal(result reflect.Value, log []Hit) {
 					walk(fc.Sub, f.Elem())
 				}
 				continue
-			case KSStruct:
+			case KSStruct, KAStruct:
 				for j := 0; j < f.Len() && j < len(fc.Elems); j++ {
 					walk(fc.Elems[j], f.Index(j))
 				}
@@ -569,6 +586,25 @@ func (e *E) checkTraversal(result reflect.Value, log []Hit) {
 						e.fail("validators-run", "Unpack", map[string]string{"field": fc.Path, "kind": fc.F.Kind.String()}, "Unpack succeeded but Validate() was never called on entry %q (= %d) of field %s (%s, pre-filled=%v, mentioned=%v)", k.String(), x, fc.Path, fc.F.Kind, fc.Pre, fc.Mention)
 					}
 				}
+			case KSSVInt:
+				for j := 0; j < f.Len(); j++ {
+					for k := 0; k < f.Index(j).Len(); k++ {
+						if x := f.Index(j).Index(k).Int(); !seenValidate["VInt"][fmt.Sprint(x)] {
+							e.fail("validators-run", "Unpack", map[string]string{"field": fc.Path, "kind": fc.F.Kind.String()}, "Unpack succeeded but Validate() was never called on element %d.%d (= %d) of field %s (%s, pre-filled=%v, mentioned=%v)", j, k, x, fc.Path, fc.F.Kind, fc.Pre, fc.Mention)
+						}
+					}
+				}
+			case KMSVInt:
+				keys := f.MapKeys()
+				sort.Slice(keys, func(a, b int) bool { return keys[a].String() < keys[b].String() })
+				for _, k := range keys {
+					l := f.MapIndex(k)
+					for j := 0; j < l.Len(); j++ {
+						if x := l.Index(j).Int(); !seenValidate["VInt"][fmt.Sprint(x)] {
+							e.fail("validators-run", "Unpack", map[string]string{"field": fc.Path, "kind": fc.F.Kind.String()}, "Unpack succeeded but Validate() was never called on element %s.%d (= %d) of field %s (%s, pre-filled=%v, mentioned=%v)", k.String(), j, x, fc.Path, fc.F.Kind, fc.Pre, fc.Mention)
+						}
+					}
+				}
 			case KSVInt:
 				for j := 0; j < f.Len(); j++ {
 					if !seenValidate["VInt"][fmt.Sprint(f.Index(j).Int())] {
@@ -578,7 +614,7 @@ func (e *E) checkTraversal(result reflect.Value, log []Hit) {
 			}
 			// the tag validator of the field itself: kinds a built-in validator can reject
 			switch fc.F.Kind {
-			case KStruct, KPStruct, KInline, KInner, KPInner, KDInt, KUStr, KUInt, KUBool, KUFloat, KUAny, KUCfg, KCfg, KSStruct, KMStruct, KUUint:
+			case KStruct, KPStruct, KInline, KInner, KPInner, KDInt, KUStr, KUInt, KUBool, KUFloat, KUAny, KUCfg, KCfg, KSStruct, KMStruct, KUUint, KAStruct:
 				continue // struct-kind values: no built-in validator can reject them
 			}
 			want := canonHitValue(fieldValue(f))
@@ -740,6 +776,11 @@ func boundViolations(sc *StructCase, v reflect.Value, present bool) []boundViola
 		case KSStruct:
 			for j := 0; j < f.Len() && j < len(fc.Elems); j++ {
 				out = append(out, boundViolations(fc.Elems[j], f.Index(j), true)...)
+			}
+			continue
+		case KAStruct:
+			for j := 0; j < f.Len() && j < len(fc.Elems); j++ {
+				out = append(out, boundViolations(fc.Elems[j], f.Index(j), m)...)
 			}
 			continue
 		case KMStruct:
